@@ -15,12 +15,14 @@ open VelaVerif.Tflite VelaVerif.Tflite.Writer VelaVerif.OpIndices VelaVerif.Gen
 
 /-- the reader's normal form of a tensor record the writer emits: written shape as both shapes, the reader-side name of the
 element type, the quantisation after `readQuant`, zero-length data dropped, allocation attributes at their defaults, the
-representable range of the element type -/
+representable range of the element type; the reader's own check that constant data has the size of the shape (`checkData`,
+ValueError of `reshape`) is part of it -/
 def normTensor (td : TensorD) : Except String TensorD := do
   let c ← match dtypeCode td.dtype with
     | some c => pure c
     | none => throw "key"
   let row ← Reader.dtypeRow c
+  Reader.checkData row.2.1 row.2.2.2.2 (writtenShape td) (normValues td.values)
   pure { name := td.name, shape := writtenShape td, originalShape := writtenShape td, dtype := row.2.1,
          quant := Reader.readQuant (td.quant.map quantT), values := normValues td.values, isVariable := td.isVariable,
          purpose := 0, memArea := 0, memType := 0, address := none, src := none,
@@ -106,6 +108,8 @@ def normSub (ts : List TensorD) (ci : OpInfo) (prev : List TensorD) (ps : PSub) 
   let own ← (sgAll ts ps).mapM (normTensorAt ts)
   let r ← normOps ci (sgAll ts ps) prev.length (writtenOps ps) 0 (prev ++ own)
   let outs2 ← outputList ps.sg.originalOutputPositions (sgOuts ps)
+  -- the reader's `Tensor.error`: a subgraph input must not have a producer
+  Writer.check (!(Reader.dedupNat (renList (sgAll ts ps) prev.length ps.sg.originalInputs)).any (Reader.produced r.1)) "vela-error"
   let positions ← Reader.positionsOf (Reader.dedupNat (renList (sgAll ts ps) prev.length outs2)) (renList (sgAll ts ps) prev.length outs2)
   pure ({ name := ps.sg.name, cpu := true,
           ops := Reader.startupOps r.2.1 prev.length (sgAll ts ps).length r.1
@@ -214,9 +218,21 @@ theorem mapM_mem {α β : Type} (f : α → Except String β) : ∀ (l : List α
 
 /-! ## (a) tensors -/
 
-theorem normTensor_ok_of_dataOk (td : TensorD) (h : dataOk td = true) :
-    ∃ c row, dtypeCode td.dtype = some c ∧ Reader.dtypeRow c = .ok row ∧
-      Reader.checkData row.2.1 row.2.2.2.2 (writtenShape td) (normValues td.values) = .ok () := by
+theorem mapM_congr_index {α γ β : Type} (f : α → Except String β) (g : γ → Except String β) : ∀ (l : List α) (r : List γ),
+    l.length = r.length → (∀ (i : Nat) (a : α) (c : γ), l[i]? = some a → r[i]? = some c → f a = g c) → l.mapM f = r.mapM g
+  | [], r, hl, _ => by
+    cases r with
+    | nil => rfl
+    | cons _ _ => simp at hl
+  | x :: xs, r, hl, h => by
+    cases r with
+    | nil => simp at hl
+    | cons y ys =>
+      have h0 := h 0 x y (by simp) (by simp)
+      have ih := mapM_congr_index f g xs ys (by simpa using hl) (fun i a c hi hc => h (i + 1) a c (by simpa using hi) (by simpa using hc))
+      rw [List.mapM_cons, List.mapM_cons, h0, ih]
+
+theorem normTensor_ok_of_dataOk (td : TensorD) (h : dataOk td = true) : ∃ ntd, normTensor td = .ok ntd := by
   unfold dataOk at h
   cases hc : dtypeCode td.dtype with
   | none => simp [hc] at h
@@ -228,61 +244,35 @@ theorem normTensor_ok_of_dataOk (td : TensorD) (h : dataOk td = true) :
       simp only [hr] at h
       cases hk : Reader.checkData row.2.1 row.2.2.2.2 (writtenShape td) (normValues td.values) with
       | error e => simp [hk] at h
-      | ok u => exact ⟨c, row, rfl, hr, hk⟩
+      | ok u =>
+        unfold normTensor
+        simp only [hc, hr, hk, bind, Except.bind, pure, Except.pure]
+        exact ⟨_, rfl⟩
 
-/-- one written tensor record read back -/
+/-- one written tensor record read back: the reader's result (or failure) is the normal form of the tensor -/
 theorem parse_written_tensor (bufs : List (Option Data)) (td : TensorD) (tt : TensorT) (h : tensorT td tt.buffer = .ok tt)
-    (hb : bufs[tt.buffer]? = some (normValues td.values)) (hd : dataOk td = true) :
-    ∃ ntd, normTensor td = .ok ntd ∧ Reader.parseTensor bufs tt = .ok ntd := by
-  obtain ⟨c, row, hc, hr, hk⟩ := normTensor_ok_of_dataOk td hd
+    (hb : bufs[tt.buffer]? = some (normValues td.values)) : Reader.parseTensor bufs tt = normTensor td := by
   obtain ⟨b1, b2, b3, b4, b5, _, _⟩ := tensorT_ok td tt.buffer tt h
-  have hct : c = tt.type := by rw [hc] at b3; exact Option.some.inj b3
-  subst hct
   have hbuf : Reader.bufferOf bufs tt.buffer = .ok (normValues td.values) := by
     unfold Reader.bufferOf; rw [hb]; rfl
-  have hn : ∃ ntd, normTensor td = .ok ntd := by
-    unfold normTensor
-    simp only [hc, hr, bind, Except.bind, pure, Except.pure]
-    exact ⟨_, rfl⟩
-  obtain ⟨ntd, hn⟩ := hn
-  refine ⟨ntd, hn, ?_⟩
-  rw [← hn]
   unfold Reader.parseTensor normTensor
-  simp only [hc, hr, hbuf, b5, b4, b1, b2, Option.getD_some, hk, bind, Except.bind, pure, Except.pure]
+  simp only [b3, hbuf, b5, b4, b1, b2, Option.getD_some, bind, Except.bind, pure, Except.pure]
 
 /-- the tensor table of one written subgraph read back (relative to the final buffer list `B`, followed by the metadata buffers) -/
 theorem parse_written_tensors (ts : List TensorD) (all : List Nat) (tensors : List TensorT) (B X : List (Option Data))
-    (h : TensorsOk ts all tensors B)
-    (hd : ∀ g ∈ all, ∀ td, ts[g]? = some td → dataOk td = true) :
-    ∃ own, all.mapM (normTensorAt ts) = .ok own ∧ own.length = all.length ∧
-      tensors.mapM (Reader.parseTensor (((B ++ X).map fun b => ({ data := b } : BufferT)).map Reader.parseBuffer)) = .ok own := by
+    (h : TensorsOk ts all tensors B) :
+    tensors.mapM (Reader.parseTensor (((B ++ X).map fun b => ({ data := b } : BufferT)).map Reader.parseBuffer)) =
+      all.mapM (normTensorAt ts) := by
   obtain ⟨hl, hf⟩ := h
-  have hpt : ∀ g ∈ all, ∃ b, normTensorAt ts g = .ok b := by
-    intro g hg
-    obtain ⟨i, hi⟩ := List.getElem?_of_mem hg
-    obtain ⟨td, tt, h1, h2, h3, h4, h5⟩ := hf i g hi
-    have hb : (((B ++ X).map fun b => ({ data := b } : BufferT)).map Reader.parseBuffer)[tt.buffer]? = some (normValues td.values) := by
-      simp only [List.getElem?_map, List.getElem?_append_left h4, h5, Option.map_some]; rfl
-    obtain ⟨ntd, hn, _⟩ := parse_written_tensor _ td tt h3 hb (hd g hg td h1)
-    exact ⟨ntd, by unfold normTensorAt; rw [h1]; exact hn⟩
-  obtain ⟨own, hown⟩ := mapM_of_pointwise _ all hpt
-  obtain ⟨ol, of⟩ := mapM_ok _ _ _ hown
-  refine ⟨own, hown, ol, ?_⟩
-  apply mapM_eq_of_index
-  · rw [ol, hl]
-  · intro i tt hi
-    have hil : i < all.length := by rw [← hl]; exact (List.getElem?_eq_some_iff.mp hi).1
-    obtain ⟨td, tt', h1, h2, h3, h4, h5⟩ := hf i all[i] (List.getElem?_eq_getElem hil)
-    rw [hi] at h2; obtain rfl := Option.some.inj h2
-    obtain ⟨b, hb1, hb2⟩ := of i all[i] (List.getElem?_eq_getElem hil)
-    have hb : (((B ++ X).map fun b => ({ data := b } : BufferT)).map Reader.parseBuffer)[tt.buffer]? = some (normValues td.values) := by
-      simp only [List.getElem?_map, List.getElem?_append_left h4, h5, Option.map_some]; rfl
-    obtain ⟨ntd, hn, hp⟩ := parse_written_tensor _ td tt h3 hb (hd _ (List.getElem_mem hil) td h1)
-    unfold normTensorAt at hb2
-    simp only [h1] at hb2
-    rw [hn] at hb2
-    obtain rfl := Except.ok.inj hb2
-    exact ⟨ntd, hb1, hp⟩
+  apply mapM_congr_index _ _ _ _ hl
+  intro i tt g hi hg
+  obtain ⟨td, tt', h1, h2, h3, h4, h5⟩ := hf i g hg
+  rw [hi] at h2; obtain rfl := Option.some.inj h2
+  have hb : (((B ++ X).map fun b => ({ data := b } : BufferT)).map Reader.parseBuffer)[tt.buffer]? = some (normValues td.values) := by
+    simp only [List.getElem?_map, List.getElem?_append_left h4, h5, Option.map_some]; rfl
+  rw [parse_written_tensor _ td tt h3 hb]
+  unfold normTensorAt
+  rw [h1]
 
 /-! ## (b) operator codes -/
 
@@ -535,9 +525,13 @@ theorem normTensor_values (td ntd : TensorD) (h : normTensor td = .ok ntd) : ntd
     cases hr : Reader.dtypeRow c with
     | error e => simp [hr] at h
     | ok row =>
-      simp only [hr, Except.ok.injEq] at h
-      subst h
-      rfl
+      simp only [hr] at h
+      cases hk : Reader.checkData row.2.1 row.2.2.2.2 (writtenShape td) (normValues td.values) with
+      | error e => simp [hk] at h
+      | ok u =>
+        simp only [hk, Except.ok.injEq] at h
+        subst h
+        rfl
 
 theorem opSimple_of (ts : List TensorD) (ci : OpInfo) (hci : lookupOp "Custom" = some ci) (all : List Nat) (b : Nat) (T : List TensorD)
     (p : POp) (hp : p.info.tableOk = true) (hok : opOk ts p = true) (hinv : p.info.inv.isSome = true)
@@ -656,25 +650,23 @@ theorem inputs_check (all : List Nat) (b : Nat) (origIn : List Nat) (ops : List 
       exact this ht
 
 theorem read_written_subgraph (ts : List TensorD) (ci : OpInfo) (rcodes : List Reader.RCode) (codes : List Code)
-    (bufs : List (Option Data)) (prev : List TensorD) (ps : PSub) (sg : SubGraphT) (own : List TensorD)
+    (bufs : List (Option Data)) (prev : List TensorD) (ps : PSub) (sg : SubGraphT)
     (hloc : SgLocal ts codes ps sg) (hlen : sg.tensors.length = (sgAll ts ps).length)
-    (hown : (sgAll ts ps).mapM (normTensorAt ts) = .ok own)
-    (hparse : sg.tensors.mapM (Reader.parseTensor bufs) = .ok own)
-    (hops : ∀ p ∈ writtenOps ps, OpFacts ci rcodes codes p)
-    (hinp : inputsNotProduced ps = true) :
+    (hparse : sg.tensors.mapM (Reader.parseTensor bufs) = (sgAll ts ps).mapM (normTensorAt ts))
+    (hops : ∀ p ∈ writtenOps ps, OpFacts ci rcodes codes p) :
     Reader.readSubgraph rcodes bufs prev sg = normSub ts ci prev ps := by
   obtain ⟨outs2, operators, ho, hser, hoe, hi, hou, hn, _⟩ := hloc
-  have hpo := parse_written_operators ci rcodes codes (sgAll ts ps) prev.length (writtenOps ps) operators 0 (prev ++ own) hser hops
   unfold Reader.readSubgraph normSub
-  rw [hlen, hoe, hou, hi, hn]
-  simp only [hparse, hown, hpo, bind, Except.bind]
-  cases hno : normOps ci (sgAll ts ps) prev.length (writtenOps ps) 0 (prev ++ own) with
+  rw [hlen, hoe, hou, hi, hn, hparse]
+  cases hown : (sgAll ts ps).mapM (normTensorAt ts) with
   | error e => rfl
-  | ok r =>
-    have hchk : Writer.check (!(Reader.dedupNat (renList (sgAll ts ps) prev.length ps.sg.originalInputs)).any
-        (Reader.produced r.1)) "vela-error" = .ok () := by
-      rw [inputs_check _ _ _ _ _ (normOps_fileOutputs ci _ _ _ _ _ r hno) hinp]; rfl
-    simp only [ho, ioIndices_written, hchk, bind, Except.bind, pure, Except.pure, Option.getD_some]
+  | ok own =>
+    have hpo := parse_written_operators ci rcodes codes (sgAll ts ps) prev.length (writtenOps ps) operators 0 (prev ++ own) hser hops
+    simp only [hpo, bind, Except.bind]
+    cases hno : normOps ci (sgAll ts ps) prev.length (writtenOps ps) 0 (prev ++ own) with
+    | error e => rfl
+    | ok r =>
+      simp only [ho, ioIndices_written, bind, Except.bind, pure, Except.pure, Option.getD_some]
 
 /-! ## (f) all subgraphs -/
 
@@ -682,9 +674,9 @@ structure SubOk (ts : List TensorD) (ci : OpInfo) (rcodes : List Reader.RCode) (
     (ps : PSub) (sg : SubGraphT) : Prop where
   loc : SgLocal ts codes ps sg
   len : sg.tensors.length = (sgAll ts ps).length
-  own : ∃ own, (sgAll ts ps).mapM (normTensorAt ts) = .ok own ∧ sg.tensors.mapM (Reader.parseTensor bufs) = .ok own
+  own : sg.tensors.mapM (Reader.parseTensor bufs) = (sgAll ts ps).mapM (normTensorAt ts)
+  refs : ∀ g ∈ sgAll ts ps, ∃ td, ts[g]? = some td
   ops : ∀ p ∈ writtenOps ps, OpFacts ci rcodes codes p
-  inp : inputsNotProduced ps = true
 
 theorem read_written_subgraphs (ts : List TensorD) (ci : OpInfo) (rcodes : List Reader.RCode) (codes : List Code)
     (bufs : List (Option Data)) (subs : List PSub) (sgs : List SubGraphT)
@@ -694,9 +686,8 @@ theorem read_written_subgraphs (ts : List TensorD) (ci : OpInfo) (rcodes : List 
   | nil => intro prev; rfl
   | cons hab _ ih =>
     intro prev
-    obtain ⟨own, ho1, ho2⟩ := hab.own
     unfold Reader.readSubgraphs normSubs
-    rw [read_written_subgraph ts ci rcodes codes bufs prev _ _ own hab.loc hab.len ho1 ho2 hab.ops hab.inp]
+    rw [read_written_subgraph ts ci rcodes codes bufs prev _ _ hab.loc hab.len hab.own hab.ops]
     cases hn : normSub ts ci prev _ with
     | error e => rfl
     | ok r =>
@@ -714,6 +705,7 @@ theorem positionsOf_ok (l : List Nat) : ∃ r, Reader.positionsOf (Reader.dedupN
 theorem normSubs_ok (ts : List TensorD) (ci : OpInfo) (rcodes : List Reader.RCode) (codes : List Code)
     (bufs : List (Option Data)) (subs : List PSub) (sgs : List SubGraphT)
     (h : List.Forall₂ (SubOk ts ci rcodes codes bufs) subs sgs)
+    (hdom : ∀ ps ∈ subs, subDomain ts ps = true)
     (hs : ∀ ps ∈ subs, ∀ prev own, (sgAll ts ps).mapM (normTensorAt ts) = .ok own →
       ∀ p ∈ writtenOps ps, OpSimple ci (sgAll ts ps) prev.length (prev ++ own) p) :
     ∀ prev, ∃ r, normSubs ts ci subs prev = .ok r := by
@@ -721,13 +713,26 @@ theorem normSubs_ok (ts : List TensorD) (ci : OpInfo) (rcodes : List Reader.RCod
   | nil => intro prev; exact ⟨_, rfl⟩
   | @cons ps sg _ _ hab _ ih =>
     intro prev
-    obtain ⟨own, ho1, _⟩ := hab.own
+    have hd := hdom ps (List.mem_cons_self ..)
+    unfold subDomain at hd
+    simp only [Bool.and_eq_true] at hd
+    obtain ⟨hdata, hinp⟩ := hd
+    obtain ⟨own, ho1⟩ := mapM_of_pointwise (normTensorAt ts) (sgAll ts ps) (by
+      intro g hg
+      obtain ⟨td, htd⟩ := hab.refs g hg
+      have := List.all_eq_true.mp hdata g hg
+      simp only [htd] at this
+      obtain ⟨ntd, hn⟩ := normTensor_ok_of_dataOk td this
+      exact ⟨ntd, by unfold normTensorAt; rw [htd]; exact hn⟩)
     obtain ⟨outs2, _, ho, _⟩ := hab.loc
     unfold normSubs normSub
     obtain ⟨pos, hpos⟩ := positionsOf_ok (renList (sgAll ts ps) prev.length outs2)
     have hno := normOps_simple ci (sgAll ts ps) prev.length (prev ++ own) (writtenOps ps) 0 (hs ps (List.mem_cons_self ..) prev own ho1)
-    simp only [ho1, hno, ho, hpos, bind, Except.bind, pure, Except.pure]
-    obtain ⟨r, hr⟩ := ih (fun q hq => hs q (List.mem_cons_of_mem _ hq)) (prev ++ own)
+    have hchk : Writer.check (!(Reader.dedupNat (renList (sgAll ts ps) prev.length ps.sg.originalInputs)).any
+        (Reader.produced ((writtenOps ps).map (normROp ci (sgAll ts ps) prev.length)))) "vela-error" = .ok () := by
+      rw [inputs_check _ _ _ _ _ (normOps_fileOutputs ci _ _ _ _ _ _ hno) hinp]; rfl
+    simp only [ho1, hno, ho, hchk, hpos, bind, Except.bind, pure, Except.pure]
+    obtain ⟨r, hr⟩ := ih (fun q hq => hdom q (List.mem_cons_of_mem _ hq)) (fun q hq => hs q (List.mem_cons_of_mem _ hq)) (prev ++ own)
     rw [hr]
     exact ⟨_, rfl⟩
 
@@ -819,34 +824,28 @@ theorem writtenOp_info (ts : List TensorD) (sgd : SubgraphD) (ps : PSub) (hprep 
 theorem subOk_of (d : Desc) (ci : OpInfo) (hci : lookupOp "Custom" = some ci) (codes : List Code) (opcodes : List OpCodeT)
     (rcodes : List Reader.RCode) (h2 : codes.mapM serialiseOpCode = .ok opcodes) (h3 : opcodes.mapM Reader.parseOpCode = .ok rcodes)
     (B X : List (Option Data)) (sgd : SubgraphD) (ps : PSub) (sg : SubGraphT) (hprep : prepSub d.tensors sgd = .ok ps)
-    (hdom : subDomain d.tensors ps = true) (hloc : SgLocal d.tensors codes ps sg)
+    (hloc : SgLocal d.tensors codes ps sg)
     (ht : TensorsOk d.tensors (sgAll d.tensors ps) sg.tensors B) :
     SubOk d.tensors ci rcodes codes (((B ++ X).map fun b => ({ data := b } : BufferT)).map Reader.parseBuffer) ps sg := by
-  unfold subDomain at hdom
-  simp only [Bool.and_eq_true] at hdom
-  obtain ⟨hdata, hinp⟩ := hdom
-  obtain ⟨own, o1, _, o3⟩ := parse_written_tensors d.tensors (sgAll d.tensors ps) sg.tensors B X ht (by
-    intro g hg td htd
-    have := List.all_eq_true.mp hdata g hg
-    simpa [htd] using this)
-  refine ⟨hloc, ht.1, ⟨own, o1, o3⟩, ?_, hinp⟩
-  intro p hp
-  obtain ⟨t1, t2⟩ := writtenOp_info d.tensors sgd ps hprep p hp
-  exact opFacts_of ci hci codes opcodes rcodes h2 h3 p t1 t2
+  refine ⟨hloc, ht.1, parse_written_tensors d.tensors (sgAll d.tensors ps) sg.tensors B X ht, ?_, ?_⟩
+  · intro g hg
+    obtain ⟨i, hi⟩ := List.getElem?_of_mem hg
+    obtain ⟨td, _, h1, _⟩ := ht.2 i g hi
+    exact ⟨td, h1⟩
+  · intro p hp
+    obtain ⟨t1, t2⟩ := writtenOp_info d.tensors sgd ps hprep p hp
+    exact opFacts_of ci hci codes opcodes rcodes h2 h3 p t1 t2
 
-/-- the assembled round trip: on the domain, reading the written file and normalising the description are the same computation
-(the same graph description, or the same failure of the reader's cloning); without surgery (`noSurgery`) normalising succeeds -/
-theorem read_writeWith (d : Desc) (enum : List Code) (m : ModelT) (hd : roundtripDomain d = true) (h : writeWith d enum = .ok m) :
-    Reader.read d.version m = normalise d ∧ (noSurgery d = true → ∃ nd, normalise d = .ok nd) := by
+/-- the assembled round trip: reading the written file and normalising the description are the same computation (the same graph
+description, or the same failure of one of the reader's checks / of its cloning step) — for every description; on the domain
+(`roundtripDomain`) and without surgery (`noSurgery`) normalising succeeds -/
+theorem read_writeWith (d : Desc) (enum : List Code) (m : ModelT) (h : writeWith d enum = .ok m) :
+    Reader.read d.version m = normalise d ∧ (roundtripDomain d = true → noSurgery d = true → ∃ nd, normalise d = .ok nd) := by
   obtain ⟨subs, opcodes, st, metas, h1, h2, h3, h4, hm, acc, hl⟩ := write_facts d enum m h
   obtain ⟨ci, hci⟩ := Option.isSome_iff_exists.mp custom_exists
   have hciE : lookupOpE "Custom" = .ok ci := by unfold lookupOpE; rw [hci]; rfl
   obtain ⟨rcodes, h3'⟩ := opcodes_readable _ _ h2
   have hloc := subgraphs_local d.tensors (sortCodes enum) subs st0 m.subgraphs st h3
-  have hdom : ∀ ps ∈ subs, subDomain d.tensors ps = true := by
-    unfold roundtripDomain preppedSubs at hd
-    rw [h1] at hd
-    exact fun ps hps => List.all_eq_true.mp hd ps hps
   have hbufs : m.buffers = (st.buffers ++ metas.map (·.data)).map fun b => ({ data := b } : BufferT) := by rw [hm]; rfl
   have hopc : m.opcodes = opcodes := by rw [hm]; rfl
   have hmd : m.metadata = metas.zipIdx.map fun x => ({ name := some x.1.name, buffer := st.buffers.length + x.2 } : MetadataT) := by
@@ -862,7 +861,7 @@ theorem read_writeWith (d : Desc) (enum : List Code) (m : ModelT) (hd : roundtri
     have hmap : (subs.map (sgAll d.tensors))[k]? = some (sgAll d.tensors (subs.get ⟨k, hk⟩)) := by
       simp [List.getElem?_eq_getElem hk]
     have hsg : m.subgraphs[k]? = some (m.subgraphs.get ⟨k, hs⟩) := by simp [List.getElem?_eq_getElem hs]
-    exact subOk_of d ci hci _ opcodes rcodes h2 h3' st.buffers _ sgd _ _ hprep (hdom _ hps) hL (acc.tensors k _ _ hmap hsg)
+    exact subOk_of d ci hci _ opcodes rcodes h2 h3' st.buffers _ sgd _ _ hprep hL (acc.tensors k _ _ hmap hsg)
   have e2 := read_written_subgraphs _ _ _ _ _ _ _ hall []
   have e3 : Reader.readMetadata (m.buffers.map Reader.parseBuffer) m.metadata =
       .ok (metas.map fun mw => { nameIsBytes := true, name := mw.name, data := normValues mw.data }) := by
@@ -872,7 +871,11 @@ theorem read_writeWith (d : Desc) (enum : List Code) (m : ModelT) (hd : roundtri
   · unfold Reader.read normalise
     rw [hopc]
     simp only [h1, hciE, h3', e2, e3, e4, bind, Except.bind, pure, Except.pure]
-  · intro hns
+  · intro hd hns
+    have hdom : ∀ ps ∈ subs, subDomain d.tensors ps = true := by
+      unfold roundtripDomain preppedSubs at hd
+      rw [h1] at hd
+      exact fun ps hps => List.all_eq_true.mp hd ps hps
     have hsimple : ∀ ps ∈ subs, ∀ prev own, (sgAll d.tensors ps).mapM (normTensorAt d.tensors) = .ok own →
         ∀ p ∈ writtenOps ps, OpSimple ci (sgAll d.tensors ps) prev.length (prev ++ own) p := by
       unfold noSurgery preppedSubs at hns
@@ -894,7 +897,7 @@ theorem read_writeWith (d : Desc) (enum : List Code) (m : ModelT) (hd : roundtri
         refine ⟨ntd, ?_, normTensor_values td ntd hn2⟩
         rw [List.getElem?_append_right (Nat.le_add_right _ _), Nat.add_sub_cancel_left]
         exact hn1
-    obtain ⟨r, hr⟩ := normSubs_ok _ _ _ _ _ _ _ hall hsimple []
+    obtain ⟨r, hr⟩ := normSubs_ok _ _ _ _ _ _ _ hall hdom hsimple []
     unfold normalise
     simp only [h1, hciE, hr, e4, bind, Except.bind, pure, Except.pure]
     exact ⟨_, rfl⟩
